@@ -329,7 +329,8 @@ func (bucket *Bucket) _db() queryable {
 }
 
 // Runs a function within a SQLite transaction.
-func (bucket *Bucket) inTransaction(fn func(txn *sql.Tx) error) error {
+// Any onCommit functions run after a successful commit, still holding the bucket mutex.
+func (bucket *Bucket) inTransaction(fn func(txn *sql.Tx) error, onCommit ...func()) error {
 	// SQLite allows only a single writer, so use a mutex to avoid BUSY and LOCKED errors.
 	// However, these errors can still occur (somehow?), so we retry if we get one.
 	// --Update, 25 July 2023: After adding "_txlock=immediate" to the DB options when opening,
@@ -369,6 +370,11 @@ func (bucket *Bucket) inTransaction(fn func(txn *sql.Tx) error) error {
 			}
 		} else if attempt > 0 {
 			warn("Transaction: COMMIT successful on attempt #%d", attempt+1)
+		}
+		if err == nil {
+			for _, f := range onCommit {
+				f()
+			}
 		}
 		break
 	}
